@@ -284,6 +284,21 @@ def handle (s : Sexp) : D String :=
         | .requeue s => s!"(requeue {s})"
         | .nothing => "(nothing)"
       pure s!"{showS st1} {showA}"
+  | .list (.atom "stepdata" :: ops) => do
+      -- (stepdata (add a) (own fresh) (assign l) ...) : StepData after these calls of add_atom / translate, and the backend statements
+      let ops' ← ops.mapM fun o => match o with
+        | .list [.atom "add", a] => do pure (SDOp.addAtom (← decInt a))
+        | .list [.atom "own", a] => do pure (SDOp.translate (.own (← decInt a)))
+        | .list [.atom "assign", a] => do pure (SDOp.translate (.assign (← decInt a)))
+        | x => dfail "stepdata op" x
+      let (d, out) := StepData.run {} ops'
+      let ints := fun (l : List Int) => "(" ++ " ".intercalate (l.map toString) ++ ")"
+      let lit := match d.literal with | some l => toString l | none => "none"
+      let sorted := d.literals.toArray.qsort (· < ·) |>.toList
+      let outs := out.map fun o => match o with
+        | .choice a => s!"(choice {a})"
+        | .clause c => ints c
+      pure s!"{lit} {ints sorted} {ints d.todo} ({" ".intercalate outs})"
   | .list (.atom "todo" :: ks) => do
       -- (todo (step rep) ...) : the queue after these add_todo calls
       let keys ← ks.mapM fun k => match k with
